@@ -85,3 +85,19 @@ Theorem C16_long_line_fails : forall s, forallb short (split_lines (S (length s)
   o_fail (run (events_of (S (length s)) s)) = true.
 Proof. exact long_line_fails. Qed.
 Print Assumptions C16_long_line_fails.
+
+(** a query at the end of the input is treated the same whether or not a semicolon follows it:
+    compiling the last piece as an unterminated query is the same as handling it as a terminated
+    statement with nothing after it; on scripts, whenever the appended semicolon is a token of its
+    own (not swallowed by an unterminated comment, string or quoted name) *)
+Theorem C16_last_query_either_way : forall st p, is_let_piece p = false -> scan p <> [] ->
+  finish (set_pending st p) false = finish (set_pending (do_piece st p) []) false.
+Proof. exact last_query_either_way. Qed.
+Print Assumptions C16_last_query_either_way.
+
+Theorem C16_trailing_semicolon : forall s,
+  split_statements (s ++ [59%N]) = split_statements s ++ [[]] ->
+  is_let_piece (last (split_statements s) []) = false -> scan (last (split_statements s) []) <> [] ->
+  expected (s ++ [59%N]) = expected s.
+Proof. exact trailing_semicolon. Qed.
+Print Assumptions C16_trailing_semicolon.
